@@ -72,11 +72,25 @@ def table_columns(table):
 
 
 def _db_fun(db, table, col, sort):
-    return cur().decls.fun(f"db.{table}.{col}.v{db.version}", [INT], sort)
+    v = db.col_version(table, col.split(".")[0]) if hasattr(db, "col_version") else db.version
+    return cur().decls.fun(f"db.{table}.{col}.v{v}", [INT], sort)
+
+
+def detached_at(db, key: tm.T) -> tm.T:
+    """node.detached (the symbol contracts/common.py uses through DbStub.fact('detached', i))."""
+    v = db.col_version("node", "detached") if hasattr(db, "col_version") else db.version
+    return cur().decls.fun(f"db.detached.v{v}", [INT], BOOL)(key)
 
 
 def exists(db, table, key: tm.T) -> tm.T:
     return _db_fun(db, table, "exists", BOOL)(key)
+
+
+trusted.trusted("sqlite3 (writes, contracts/graphdb.py): UPDATE t SET c = e WHERE w gives column c the value e in the "
+                "existing rows that satisfy w and leaves every other row and column as it was, apart from the columns "
+                "that AFTER triggers on the event may write (computed from the trigger texts, transitively, and left "
+                "unknown); INSERT adds exactly one row; DELETE removes exactly the rows that satisfy its WHERE (rows of "
+                "tables with ON DELETE CASCADE to it become unknown)")
 
 
 def column(db, table, col, key: tm.T) -> sqlfront.Val:
@@ -87,7 +101,7 @@ def column(db, table, col, key: tm.T) -> sqlfront.Val:
     if col == KEYS.get(table):
         return sqlfront.Val(key, "int")
     if table == "node" and col == "detached":
-        return sqlfront.Val(db.fact("detached", key), "bool")  # the name contracts/common.py uses
+        return sqlfront.Val(detached_at(db, key), "bool")
     sort = STR if typ == "TEXT" else INT
     if typ == "REAL":
         raise sqlfront.SQLError(f"real column {table}.{col}")
@@ -315,3 +329,239 @@ def query(prefix, rowspec, witness=None, none_keys=None, always_row=False, compl
 
 def no_row(db, sql, args, keys) -> tm.T:
     return tm.Not(Select(sql).condition(db, keys, args))
+
+
+# --------------------------------------------------------------------------- writing statements
+
+
+def _trigger_writes(table, event, set_cols):
+    """Columns that AFTER triggers may write when `event` happens on `table` (closure over nested triggers):
+    they move to a new version without any fact (their new value is unknown to the reader)."""
+    from contracts.C10_dispatch import all_triggers
+
+    trg = all_triggers()
+    todo = [(table, event, set(set_cols) if set_cols is not None else None)]
+    seen = set()
+    out = set()
+    while todo:
+        t, ev, cols = todo.pop()
+        for name, (tev, ttable, tcol, _when, body) in trg.items():
+            if ttable != t or tev != ev or name in seen:
+                continue
+            if tcol is not None and cols is not None and tcol not in cols:
+                continue
+            seen.add(name)
+            for m in re.finditer(r"UPDATE (\w+) SET (.*?)(?: WHERE |;|$)", body):
+                wt = m.group(1)
+                wcols = set(re.findall(r"(\w+) =", m.group(2)))
+                for wc in wcols:
+                    out.add((wt, wc))
+                todo.append((wt, "UPDATE", wcols))
+            for m in re.finditer(r"(INSERT INTO|DELETE FROM) (\w+)", body):
+                raise sqlfront.SQLError(f"trigger {name} inserts or deletes rows: not read")
+    return out
+
+
+def _bound_key(name="k"):
+    return tm.Var(cur().fresh_name(name + "!bound"), INT)
+
+
+def _param_fn(args):
+    def param(idx):
+        v = args[idx]
+        if isinstance(v, (sym.SymStr, str)):
+            return sqlfront.Val(sym.S(v), "str")
+        if v is None:
+            return sqlfront.Val(tm.mk_int(0), "int", tm.TRUE)
+        if isinstance(v, sym.SymOpt):
+            pay = v.payload
+            t = sym.S(pay) if isinstance(pay, (sym.SymStr, str)) else (sym.I(pay) if pay is not None else tm.mk_int(0))
+            return sqlfront.Val(t, "str" if isinstance(pay, (sym.SymStr, str)) else "int", v.isnone)
+        return sqlfront.Val(sym.I(v), "int")
+
+    return param
+
+
+def _same(a: sqlfront.Val, b: sqlfront.Val) -> tm.T:
+    """Two column values agree (value and NULL flag)."""
+    if a.kind == "bool":
+        eq = tm.Iff(a.t, b.t if b.kind == "bool" else tm.Ne(b.t, tm.mk_int(0)))
+    elif b.kind == "bool":
+        eq = tm.Iff(tm.Ne(a.t, tm.mk_int(0)), b.t)
+    else:
+        eq = tm.Eq(a.t, b.t)
+    return tm.And(tm.Iff(a.null, b.null), tm.Implies(tm.Not(a.null), eq))
+
+
+def _ite_val(c, a: sqlfront.Val, b: sqlfront.Val, like: sqlfront.Val) -> sqlfront.Val:
+    def as_kind(v):
+        if like.kind == "bool" and v.kind != "bool":
+            return tm.Ne(v.t, tm.mk_int(0))
+        if like.kind != "bool" and v.kind == "bool":
+            return tm.Ite(v.t, tm.mk_int(1), tm.mk_int(0))
+        return v.t
+
+    return sqlfront.Val(tm.Ite(c, as_kind(a), as_kind(b)), like.kind, tm.Ite(c, a.null, b.null))
+
+
+CLOSURE_READERS = []  # (normalised statement text, reader(db, old, args) -> facts): recursive statements (assumed)
+
+
+def read_write(db, old, sql, args):
+    """Facts that relate the tables before (`old`) and after (`db`, already at its new version) one writing
+    statement.  A statement outside the fragment is a write of unknown effect (every column moves on)."""
+    c = cur()
+    norm = sqlfront.normalize(sql)
+    for text, reader in CLOSURE_READERS:
+        if norm == text:
+            return reader(db, old, args)
+    toks = [t for t in sqlfront.tokenize(sql) if t.kind != "eof"]
+    try:
+        head = toks[0].up
+        if head == "UPDATE":
+            return _read_update(db, old, toks, args)
+        if head == "INSERT":
+            return _read_insert(db, old, toks, args)
+        if head == "DELETE":
+            return _read_delete(db, old, toks, args)
+        raise sqlfront.SQLError(f"statement {head} is not read")
+    except sqlfront.SQLError as e:
+        c.event("sql.unread", sql=sql, reason=str(e))
+        db.full = db.version
+        return True
+
+
+def _table_of(toks, pos):
+    t = sqlfront._unquote(toks[pos].text)
+    if t not in KEYS:
+        raise sqlfront.SQLError(f"table {t} has no ghost view")
+    return t
+
+
+def _clause(toks, start_kw, end_kws):
+    depth = 0
+    i0 = None
+    for i, t in enumerate(toks):
+        if t.up == "(":
+            depth += 1
+        elif t.up == ")":
+            depth -= 1
+        elif depth == 0 and i0 is None and t.up == start_kw:
+            i0 = i + 1
+        elif depth == 0 and i0 is not None and t.up in end_kws:
+            return toks[i0:i]
+    return toks[i0:] if i0 is not None else None
+
+
+def _row_translator(old, table, k, args):
+    def col(alias, name):
+        if alias not in (None, table):
+            raise sqlfront.SQLError(f"column of another table: {alias}.{name}")
+        return column(old, table, name, k)
+
+    return sqlfront.Translator(cur().decls, col, _param_fn(args))
+
+
+def _read_update(db, old, toks, args):
+    table = _table_of(toks, 1)
+    set_toks = _clause(toks, "SET", ("WHERE", "RETURNING"))
+    where_toks = _clause(toks, "WHERE", ("RETURNING",))
+    if any(t.up == "FROM" for t in set_toks):
+        raise sqlfront.SQLError("UPDATE .. FROM is not read")
+    assigns = []
+    for item in _split_commas(set_toks):
+        if len(item) < 3 or item[1].up != "=":
+            raise sqlfront.SQLError("SET item is not `column = expression`")
+        assigns.append((sqlfront._unquote(item[0].text), sqlfront.parse_expr(item[2:])))
+    cols = [a[0] for a in assigns]
+    k = _bound_key()
+    tr = _row_translator(old, table, k, args)
+    cond = tm.And(exists(old, table, k), tr.holds(sqlfront.parse_expr(where_toks)) if where_toks else tm.TRUE)
+    vals = [(cname, tr.ev(e)) for cname, e in assigns]
+    for cname in cols:
+        db.touch(table, cname)
+    for wt, wc in _trigger_writes(table, "UPDATE", cols):
+        if not (wt == table and wc in cols):
+            db.touch(wt, wc)
+    facts = []
+    for cname, v in vals:
+        newv = column(db, table, cname, k)
+        oldv = column(old, table, cname, k)
+        facts.append(tm.ForAll([(k.s, INT)], _same(newv, _ite_val(cond, v, oldv, newv)), patterns=[[newv.t]] if not newv.t.is_lit else None))
+    return sym.wrap_bool(tm.And(*facts))
+
+
+def _read_insert(db, old, toks, args):
+    c = cur()
+    if toks[1].up != "INTO":
+        raise sqlfront.SQLError("INSERT OR .. is not read")
+    table = _table_of(toks, 2)
+    if any(t.up in ("CONFLICT", "SELECT") for t in toks):
+        raise sqlfront.SQLError("upsert / INSERT .. SELECT is not read")
+    i = 3
+    if toks[i].up != "(":
+        raise sqlfront.SQLError("INSERT without a column list is not read")
+    j = next(x for x in range(i, len(toks)) if toks[x].up == ")")
+    cols = [sqlfront._unquote(t.text) for t in toks[i + 1:j] if t.up != ","]
+    if toks[j + 1].up != "VALUES":
+        raise sqlfront.SQLError("INSERT without VALUES is not read")
+    vtoks = toks[j + 3:]
+    depth, end = 0, None
+    for x, t in enumerate(vtoks):
+        if t.up == "(":
+            depth += 1
+        elif t.up == ")":
+            if depth == 0:
+                end = x
+                break
+            depth -= 1
+    exprs = [sqlfront.parse_expr(item) for item in _split_commas(vtoks[:end])]
+    if len(exprs) != len(cols):
+        raise sqlfront.SQLError("column / value count mismatch")
+    keycol = KEYS[table]
+    tr0 = sqlfront.Translator(c.decls, lambda a, n: (_ for _ in ()).throw(sqlfront.SQLError("column in VALUES")), _param_fn(args))
+    vals = dict(zip(cols, [tr0.ev(e) for e in exprs]))
+    if keycol in vals:
+        newkey = vals[keycol].t
+    else:
+        newkey = c.fresh(c.fresh_name(f"new.{table}.{keycol}"), INT)
+        c.pc.append(tm.Not(exists(old, table, newkey)))  # an unused rowid
+    db.last_insert_key = newkey
+    allcols = [cn for cn in table_columns(table) if cn != keycol]
+    for cn in allcols:
+        db.touch(table, cn)
+    db.touch(table, "exists")
+    for wt, wc in _trigger_writes(table, "INSERT", None):
+        db.touch(wt, wc)
+    k = _bound_key()
+    facts = [tm.ForAll([(k.s, INT)], tm.Iff(exists(db, table, k), tm.Or(exists(old, table, k), tm.Eq(k, newkey))),
+                       patterns=[[exists(db, table, k)]])]
+    for cn in allcols:
+        newv, oldv = column(db, table, cn, k), column(old, table, cn, k)
+        if cn in vals:
+            body = _same(newv, _ite_val(tm.Eq(k, newkey), vals[cn], oldv, newv))
+        else:
+            body = tm.Implies(tm.Ne(k, newkey), _same(newv, oldv))
+        facts.append(tm.ForAll([(k.s, INT)], body, patterns=[[newv.t]]))
+    return sym.wrap_bool(tm.And(*facts))
+
+
+CASCADES = dict(node=["file", "step", "nglob", "static_tree", "env_var"], dependency=["dynamic_dep"])
+
+
+def _read_delete(db, old, toks, args):
+    if toks[1].up != "FROM":
+        raise sqlfront.SQLError("DELETE without FROM")
+    table = _table_of(toks, 2)
+    where_toks = _clause(toks, "WHERE", ("RETURNING",))
+    k = _bound_key()
+    tr = _row_translator(old, table, k, args)
+    cond = tr.holds(sqlfront.parse_expr(where_toks)) if where_toks else tm.TRUE
+    db.touch(table, "exists")
+    for child in CASCADES.get(table, []):  # ON DELETE CASCADE: rows of the child tables disappear (not read)
+        if child in KEYS:
+            db.touch(child, "exists")
+    for wt, wc in _trigger_writes(table, "DELETE", None):
+        db.touch(wt, wc)
+    return sym.wrap_bool(tm.ForAll([(k.s, INT)], tm.Iff(exists(db, table, k), tm.And(exists(old, table, k), tm.Not(cond))),
+                                   patterns=[[exists(db, table, k)]]))
